@@ -236,7 +236,7 @@ func (f Union) remove(value any) (out any, changed bool) {
 	case RemovableIndexed:
 		size := tv.Size()
 		for i := (size - 1); i >= 0; i-- {
-			if f.hasN(int64(i)) {
+			if f.hasN(int64(i)) || f.hasN(int64(i-size)) {
 				tv.RemoveValueAtIndex(i)
 				changed = true
 			}
@@ -260,7 +260,7 @@ func (f Union) remove(value any) (out any, changed bool) {
 			cnt := rv.Len()
 			nc := 0
 			for i := 0; i < cnt; i++ {
-				if f.hasN(int64(i)) {
+				if f.hasN(int64(i)) || f.hasN(int64(i-cnt)) {
 					changed = true
 				} else {
 					nc++
@@ -271,7 +271,7 @@ func (f Union) remove(value any) (out any, changed bool) {
 				ni := 0
 				ns := reflect.MakeSlice(rv.Type(), nc, nc)
 				for i := 0; i < cnt; i++ {
-					if f.hasN(int64(i)) {
+					if f.hasN(int64(i)) || f.hasN(int64(i-cnt)) {
 						changed = true
 					} else {
 						ns.Index(ni).Set(rv.Index(i))
